@@ -63,6 +63,11 @@ func runC06(c *Ctx) {
 
 	c.ruleRegistryInserts()
 	c.ruleFlatten("C06.flatten")
+	// the set of a pipeline's nodes is read off its chain when the pipeline is removed: the chain must be
+	// the one that was linked (and counted) at registration
+	c.ruleChainImmutable("C06.flatten")
+	// the look-up of the nodes, the store of the pipeline and the count updates are one critical section
+	c.ruleOneSection("C06.section")
 	// re-registering a node keeps the count of the pipelines that still list it
 	c.ruleRegisterNode("C06.carry")
 	c.ruleOptsTable("C06.carry", []string{"WithNodeRegistrationPolicy"})
